@@ -69,6 +69,8 @@ def main():
             rc, o = run(["/verif/check", pid, "-no-evidence", "-repo", wt], cwd="/verif", timeout=3600)
             viol = [l for l in o.splitlines() if l.startswith("VIOLATION") or l.startswith("  obligation")]
             alarms[pid] = {"exit": rc, "lines": viol[:12]}
+            if rc not in (0, 1):
+                alarms[pid]["engine_output_tail"] = o[-1500:]
             out["ran"].append("./check %s -no-evidence -repo <worktree>: rc=%d" % (pid, rc))
         out["alarms"] = alarms
         out["false_alarm"] = any(a["exit"] != 0 for a in alarms.values())
